@@ -5,6 +5,11 @@
 // compact form reports the same numbers; with p = 1 and n <= k the sketch / union result must be exact.
 // Reuse: in 30% of the cases the sketches and a persistent union object are first driven into estimation mode
 // with unrelated keys, reset(), and only then used (all resize factors incl. X1).
+// Assignment programs (15% of the cases; update_theta_sketch, update_tuple_sketch<double>, update_array_of_doubles_sketch): a
+// target and a source of different lg_k / p / resize factor / fill level (empty, exact, estimating); copy-assignment,
+// move-assignment (from a copy of the source) or self-assignment; the target must then read out exactly like its source
+// (estimate, bounds, estimation-mode flag, theta, retained count), the source must be unchanged, and under further distinct
+// updates the target keeps satisfying every clause against the source's true count plus the new items (source still unchanged).
 // Union programs (25% of the cases): 2-4 inputs of different lg_k / p / resize factor / fill level (exact ..
 // deep estimation) over heavily overlapping key windows, offered to one union of its own lg_k in generated order,
 // larger-lg_k-first or larger-lg_k-last (incl. the directed pattern "exact input with more than k entries, then a
@@ -16,6 +21,7 @@
 #include <theta_union.hpp>
 #include <tuple_sketch.hpp>
 #include <tuple_union.hpp>
+#include <array_of_doubles_sketch.hpp>
 
 using namespace datasketches;
 namespace vf {
@@ -129,6 +135,85 @@ static void stream(const Cfg& c, Rng& r, const char* fam, const char* ufam, MK m
   }
 }
 
+// ------------------------------------------------------------------ assignment programs
+template<typename SK, typename MK, typename UPD>
+static void assign_program(Rng& r, bool T, const char* fam, MK make, UPD upd) {
+  struct Side { uint8_t lg_k; float p; int rf; uint64_t n; int fill; };
+  static const float ps[] = {1.0f, 1.0f, 1.0f, 0.5f, 0.1f};
+  const uint64_t cap = T ? 300000 : 50000;
+  auto gen = [&](int fill) {
+    Side s; s.lg_k = static_cast<uint8_t>(r.range(5, T ? 12 : 11)); s.p = ps[r.below(5)]; s.rf = static_cast<int>(r.below(4)); s.fill = fill;
+    const uint64_t k = 1ULL << s.lg_k;
+    switch (fill) {
+      case 0: s.n = 0; break;
+      case 1: s.p = 1.0f; s.n = 1 + r.below(k); break;                                           // exact
+      case 2: s.n = std::min<uint64_t>(cap, 2 * k + r.below(6 * k)); break;                       // estimating
+      default: s.n = std::min<uint64_t>(cap, 16 * k + r.below(100 * k)); break;                   // estimating, much lower theta
+    }
+    return s;
+  };
+  // pairs (target fill, source fill): exact<-estimating, estimating<-exact, estimating<-estimating(other theta), ...
+  static const int PAIRS[][2] = {{1, 2}, {1, 3}, {2, 1}, {3, 1}, {2, 3}, {3, 2}, {1, 1}, {0, 2}, {2, 0}, {3, 3}};
+  const int pi = static_cast<int>(r.below(10));
+  Side ta = gen(PAIRS[pi][0]), so = gen(PAIRS[pi][1]);
+  const int kind = static_cast<int>(r.below(8));      // 0-3 copy assignment, 4-6 move assignment, 7 self assignment
+  const uint64_t base = r.next();
+  describe(std::string(fam) + " assignment kind=" + (kind < 4 ? "copy" : (kind < 7 ? "move" : "self")) + " target[lg_k=" + std::to_string(ta.lg_k) + " p=" + str(ta.p) + " rf=" + std::to_string(ta.rf) + " n=" + std::to_string(ta.n) +
+           "] source[lg_k=" + std::to_string(so.lg_k) + " p=" + str(so.p) + " rf=" + std::to_string(so.rf) + " n=" + std::to_string(so.n) + "] keybase=" + std::to_string(base));
+  SK a = make(ta.lg_k, ta.p, ta.rf), b = make(so.lg_k, so.p, so.rf);
+  for (uint64_t i = 0; i < ta.n; ++i) upd(a, bij(base + i));
+  for (uint64_t i = 0; i < so.n; ++i) upd(b, bij(base + (1ULL << 40) + i));
+  if (kind == 7) so = ta;                              // self assignment: the source is the target itself
+  Cfg c; c.lg_k = so.lg_k; c.p = so.p; c.rf = so.rf; c.nmax = 0; c.parts = 0; c.overlap = 0; c.base = base; c.step = 0; c.tuple = false; c.reuse = false;
+  const SK& src = kind == 7 ? a : b;
+  const Chain before = read_chain(src);
+  const bool src_est = src.is_estimation_mode(); const double src_theta = src.get_theta(); const uint32_t src_ret = src.get_num_retained();
+  const bool tgt_est = a.is_estimation_mode(); const double tgt_theta = a.get_theta();
+  if (kind < 4) a = b;
+  else if (kind < 7) { SK tmp(b); a = std::move(tmp); }
+  else { SK& self = a; a = self; }
+  auto ctx = [&] { return "after assignment: target theta=" + str(a.get_theta()) + " retained=" + std::to_string(a.get_num_retained()) + " estimation_mode=" + std::to_string(a.is_estimation_mode()) +
+                          " | source theta=" + str(src_theta) + " retained=" + std::to_string(src_ret) + " estimation_mode=" + std::to_string(src_est) + " true count=" + std::to_string(so.n); };
+  const Chain after = read_chain(a);
+  VF_CHECK(after.unstable.empty() && same_chain(after, before), std::string(fam) + "|assignment|target-estimate-or-bounds-differ-from-source", ctx() + " target: " + after.to_string() + " source: " + before.to_string());
+  VF_CHECK(a.is_estimation_mode() == src_est && a.get_theta() == src_theta && a.get_num_retained() == src_ret, std::string(fam) + "|assignment|target-mode-theta-or-retained-differ-from-source", ctx());
+  if (kind != 7) {
+    const Chain b_after = read_chain(b);
+    VF_CHECK(same_chain(b_after, before) && b.is_estimation_mode() == src_est && b.get_theta() == src_theta && b.get_num_retained() == src_ret, std::string(fam) + "|assignment|source-changed", ctx() + " source now: " + b_after.to_string());
+  }
+  observe(a, so.n, fam, c, "assigned sketch");
+  if (kind == 7) count("sk_assign_self");
+  else if (!tgt_est && src_est) count("sk_assign_exact_from_estimating");
+  else if (tgt_est && !src_est) count("sk_assign_estimating_from_exact");
+  else if (tgt_est && src_est && tgt_theta != src_theta) count("sk_assign_estimating_from_estimating_other_theta");
+  else count("sk_assign_other_pairs");
+  count(kind < 4 ? "sk_assign_copy" : (kind < 7 ? "sk_assign_move" : "sk_assign_self_kind"));
+  count(std::string("sk_assign_") + fam);
+  // further distinct updates: the target counts the source's items plus the new ones; the source stays as it was
+  const uint64_t more = 1 + r.below(4ULL << so.lg_k);
+  double next = 1;
+  for (uint64_t j = 0; j < more; ++j) {
+    upd(a, bij(base + (2ULL << 40) + j));
+    if (static_cast<double>(j + 1) >= next || j + 1 == more) {
+      next = std::max(next * 1.3, next + 1);
+      const uint64_t n = so.n + j + 1;
+      observe(a, n, fam, c, "assigned sketch after further updates");
+      if (a.is_estimation_mode()) {
+        const Chain ch = read_chain(a);
+        const double sigma = std::max(ch.est - ch.lb[1], ch.ub[1] - ch.est);
+        VF_CHECK(std::fabs(ch.est - static_cast<double>(n)) <= 8.0 * sigma + 10.0, std::string(fam) + "|assignment|true-count-beyond-8-published-std-devs-after-further-updates",
+                 "true count=" + std::to_string(n) + " theta=" + str(a.get_theta()) + " retained=" + std::to_string(a.get_num_retained()) + " " + ch.to_string());
+      }
+      count("sk_assign_continued_update_checkpoints");
+    }
+  }
+  if (kind != 7) {
+    const Chain b_end = read_chain(b);
+    VF_CHECK(same_chain(b_end, before) && b.get_num_retained() == src_ret && b.get_theta() == src_theta, std::string(fam) + "|assignment|source-changed-by-updates-of-the-target", ctx() + " source now: " + b_end.to_string());
+  }
+  sig(mix64(mix64(0xa5 + pi, kind), mix64(a.get_num_retained(), static_cast<uint64_t>(a.get_theta() * 1e9))));
+}
+
 // ------------------------------------------------------------------ union programs with mixed inputs
 struct Input { uint8_t lg_k; float p; int rf; uint64_t start, cnt; int form; int fill; };
 
@@ -215,6 +300,29 @@ void run_case(uint64_t idx, Rng& r) {
   (void)idx;
   seed_order(r);
   const bool T = G().thorough();
+  if (r.chance(0.15)) {
+    g_special_mod = 1ULL << 62;
+    switch (r.below(3)) {
+      case 0:
+        assign_program<update_theta_sketch>(r, T, "theta",
+          [](uint8_t lg, float p, int rf) { return update_theta_sketch::builder().set_lg_k(lg).set_p(p).set_resize_factor(static_cast<resize_factor>(rf)).build(); },
+          [](update_theta_sketch& s, uint64_t key) { s.update(key); });
+        break;
+      case 1:
+        assign_program<update_tuple_sketch<double>>(r, T, "tuple",
+          [](uint8_t lg, float p, int rf) { return update_tuple_sketch<double>::builder().set_lg_k(lg).set_p(p).set_resize_factor(static_cast<resize_factor>(rf)).build(); },
+          [](update_tuple_sketch<double>& s, uint64_t key) { s.update(key, 1.0); });
+        break;
+      default: {
+        static const std::vector<double> one = {1.0};
+        assign_program<update_array_of_doubles_sketch>(r, T, "aod",
+          [](uint8_t lg, float p, int rf) { return update_array_of_doubles_sketch::builder(1).set_lg_k(lg).set_p(p).set_resize_factor(static_cast<resize_factor>(rf)).build(); },
+          [](update_array_of_doubles_sketch& s, uint64_t key) { s.update(key, one); });
+      }
+    }
+    if (want_sample()) sample("{\"config\":" + jstr(G().cur_desc) + "}");
+    return;
+  }
   if (r.chance(0.25)) {
     if (r.coin()) {
       union_program<update_theta_sketch, theta_union>(r, T, "theta_union",
